@@ -14,7 +14,7 @@ import (
 func init() {
 	Register(&Property{
 		ID: "C07", Level: "model_checking",
-		Rule: "E2: roots = 7 methods x {considered = known, considered subset of known} on 3 alternatives x 3 criteria; transitions = one real Bias.Apply from the service's own bias map with the real " +
+		Rule: "E2: roots = 7 methods x {considered = known, considered subset of known} on 3 alternatives x 3 criteria (+ majority/satisfaction with currentChoice inside/outside choseToMake); transitions = one real Bias.Apply from the service's own bias map with the real " +
 			"listener (alphabet: 53 bias configurations full / 27 medium / 12 core); quick: depth<=2 full alphabet + depth 3 core + depth 2 over 20 seeded criterion-adding biases; thorough: depth 3 medium + depth 4 core + depth 3 adders. " +
 			"States are canonical dumps of the DecisionMakingParams (merged per root, original fixed per root). Invariants on every transition: I1 answered, I2 every known alternative has a value for every " +
 			"current criterion, I3 the method evaluates the state into a well-formed ranking, I4 ids and considered/not-considered split unchanged, I5 criteria change exactly as reported, " +
@@ -260,6 +260,12 @@ func c07Roots() []c07Root {
 			out = append(out, c07Root{fmt.Sprintf("%s/subset=%v", m, sub), rootRequest(m, sub, false)})
 		}
 	}
+	// heuristics with a current choice inside / outside choseToMake (the current choice must survive every bias)
+	for _, m := range []string{"majorityHeuristic", "satisfactionHeuristic"} {
+		for _, cc := range []string{"a", "c"} {
+			out = append(out, c07Root{fmt.Sprintf("%s/subset=true/currentChoice=%s", m, cc), withMP(rootRequest(m, true, false), M{"currentChoice": cc})})
+		}
+	}
 	return out
 }
 
@@ -304,7 +310,7 @@ func c07Run(s *Shard) {
 }
 
 func c07Finalize(m *Merged) {
-	m.Extra["states"] = m.Distinct + 14
+	m.Extra["states"] = m.Distinct + len(c07Roots())
 	m.Extra["transitions"] = m.Counters["transitions"]
 	m.Extra["traces_validated_against_impl"] = m.Counters["traces_validated"]
 }
